@@ -33,6 +33,8 @@ type histParams struct {
 	SlowStop    bool   // the receiver yields inside its Stopped handler (a handler that takes a moment)
 	StopInStop  int    // 1/2: while the receiver is inside its final Stopped handler another thread issues a Poison/Stop for it (blocking hand-off)
 	Child       bool   // incarnation 1 spawns a child in its Started handler
+	Senders     bool   // every second user message (odd index) is sent with a sender PID of its own, the others without: each delivery shows exactly its own sender
+	EmptyMW     bool   // a trailing WithMiddleware() with no middlewares follows the real one
 	SplitMW     bool   // the chain is given as two WithMiddleware options ([mw1] and [mw2..n]) instead of one
 	OtherMW     bool   // right after the spawn a second actor is spawned with a chain of its own (same length, other middlewares)
 	ChildEvery  bool   // with Child: EVERY incarnation spawns the (fixed-id) child in Started - after a restart that is a duplicate, the child of the first incarnation lives on
@@ -74,6 +76,12 @@ func (hp histParams) String() string {
 	}
 	if hp.SplitMW {
 		lc += "splitmw"
+	}
+	if hp.Senders {
+		lc += "senders"
+	}
+	if hp.EmptyMW {
+		lc += "emptymw"
 	}
 	if hp.OtherMW {
 		lc += "othermw"
@@ -137,7 +145,11 @@ func (h *histRun) watch(e *actor.Engine, ctx context.Context, kind byte, n int) 
 func (h *histRun) issue(i int, e *actor.Engine) {
 	switch h.hp.Hist[i] {
 	case 'm', 'x', 'X', 'i':
-		e.Send(h.pid, i)
+		if h.hp.Senders && i%2 == 1 {
+			e.SendWithSender(h.pid, i, actor.NewPID("local", fmt.Sprintf("snd/%d", i)))
+		} else {
+			e.Send(h.pid, i)
+		}
 	case 'P':
 		ctx := e.Poison(h.pid)
 		h.ctxs = append(h.ctxs, ctx)
@@ -309,6 +321,9 @@ func histInstance(variants []histParams, oracle func(h *histRun, r *vsched.Resul
 			opts = append(opts, actor.WithMiddleware(mws[0]), actor.WithMiddleware(mws[1:]...))
 		} else if len(mws) > 0 {
 			opts = append(opts, actor.WithMiddleware(mws...))
+		}
+		if hp.EmptyMW {
+			opts = append(opts, actor.WithMiddleware())
 		}
 		h.pid = actor.NewPID("local", "a/1")
 		k.E.Spawn(k.Producer("A", h.behave), "a", opts...)
@@ -698,6 +713,23 @@ func histTail(h *histRun, ref histRef, ended bool, count map[int]int) []vsched.V
 	if hp.Bystander {
 		if b := userMsgs(k.Recv("B")); len(b) != 1 {
 			vs = append(vs, V("containment/bystander-affected", "bystander received %d messages, want 1", len(b)))
+		}
+	}
+	// each delivery shows its own sender (receiver and every middleware)
+	if hp.Senders {
+		for _, e := range k.Log {
+			if e.Actor != "A" || (e.Kind != "recv" && e.Kind != "mw+") {
+				continue
+			}
+			want := ""
+			var id int
+			if n, _ := fmt.Sscanf(e.Msg, "m%d", &id); n == 1 && id >= 0 && id < len(hp.Hist) && id%2 == 1 {
+				want = fmt.Sprintf("local/snd/%d", id)
+			}
+			if e.Sender != want {
+				vs = append(vs, V("context/wrong-sender-shown-for-delivery", "history %s: delivery of %s shows sender %q, want %q; log: %s", hp, e.Msg, e.Sender, want, k.LogString()))
+				break
+			}
 		}
 	}
 	// middleware nesting
@@ -1107,6 +1139,12 @@ func init() {
 		// spawned right afterwards (the late probe and Stopped still run through A's own chain)
 		for _, h := range []string{"i", "mim"} {
 			vs = append(vs, histParams{Hist: h, MaxRestarts: 1, NMW: n, Mode: 0}, histParams{Hist: h, MaxRestarts: 1, NMW: n, Mode: 1})
+		}
+		for _, h := range []string{"mm", "mmm", "Pmm", "mPmm", "mxmm", "mmS"} {
+			vs = append(vs, histParams{Hist: h, MaxRestarts: 1, NMW: n, Mode: 0, Senders: true}, histParams{Hist: h, MaxRestarts: 1, NMW: n, Mode: 1, Senders: true})
+		}
+		for _, h := range []string{"m", "mxm", "mP"} {
+			vs = append(vs, histParams{Hist: h, MaxRestarts: 1, NMW: n, Mode: 0, EmptyMW: true})
 		}
 		for _, h := range []string{"m", "x", "mP"} {
 			vs = append(vs, histParams{Hist: h, MaxRestarts: 1, NMW: n, Mode: 1, Late: true, OtherMW: true})
